@@ -2,9 +2,9 @@
    Orientations "a:f,a:f,..." (row "n" = nan row); matrices "a,b,c,d|e,f,g,h|..." (rows by |);
    dim_info / axis codes "x,y,_" (_ = None); shapes "[a,b,c]"; index tuples as in C06:
    i<k> | s<a>:<b>:<c> (_ = None) | n | e, "()" = empty.
-   reorient <nifti> <shape> <ornt> <affine> <dim> | slicer <shape> <ix> <affine>
+   reorient <nifti> <shape> <ornt> <affine> <dim> | slicer <shape> <ix> <affine> <dim>
    slaff <shape> <ix> <affine> | hyp <shape> <ix> | invaff <ornt> <shape> | otrans <o1> <o2>
-   ocomp <o1> <o2> | o2c <orows> | c2o <codes> | ioloop <atol> <R> <p> *)
+   ops <nifti> <shape> <affine> <dim> <op;op;...> (op = S=<ix> | R=<ornt>) | ocomp <o1> <o2> | o2c <orows> | c2o <codes> | ioloop <atol> <R> <p> *)
 let optz s = if s = "_" then None else Some (z_of_string s)
 let str_optz = function None -> "_" | Some v -> string_of_z v
 let split c s = if s = "" || s = "()" then [] else String.split_on_char c s
@@ -36,9 +36,17 @@ let handle op args = match op, args with
         "same=" ^ string_of_bool same ^ " shape=" ^ string_of_zlist sh ^ " aff=" ^ str_mat a
         ^ " dim=" ^ str_opts d ^ " srcs=" ^ string_of_zlist srcs)
       (run_reorient (bool_of_string nif) (zlist_of_string shape) (parse_ornt o) (parse_mat aff) (parse_opts dim))
-  | "slicer", [shape; ix; aff] ->
-    res (fun ((sh, a), srcs) -> "shape=" ^ string_of_zlist sh ^ " aff=" ^ str_mat a ^ " srcs=" ^ string_of_zlist srcs)
-      (run_slicer (zlist_of_string shape) (parse_ix ix) (parse_mat aff))
+  | "slicer", [shape; ix; aff; dim] ->
+    res (fun (((sh, a), d), srcs) -> "shape=" ^ string_of_zlist sh ^ " aff=" ^ str_mat a ^ " dim=" ^ str_opts d
+                                     ^ " srcs=" ^ string_of_zlist srcs)
+      (run_slicer (zlist_of_string shape) (parse_ix ix) (parse_mat aff) (parse_opts dim))
+  | "ops", [nif; shape; aff; dim; ops] ->
+    let parse_op t = if t.[0] = 'S' then OSlice (parse_ix (String.sub t 2 (String.length t - 2)))
+                     else OReorient (parse_ornt (String.sub t 2 (String.length t - 2))) in
+    res (fun (((sh, a), d), srcs) -> "shape=" ^ string_of_zlist sh ^ " aff=" ^ str_mat a ^ " dim=" ^ str_opts d
+                                     ^ " srcs=" ^ string_of_zlist srcs)
+      (run_sequence (bool_of_string nif) (zlist_of_string shape) (parse_mat aff) (parse_opts dim)
+         (List.map parse_op (split ';' ops)))
   | "slaff", [shape; ix; aff] ->
     res str_mat (slice_affine (parse_mat aff) (zlist_of_string shape) (parse_ix ix))
   | "hyp", [shape; ix] ->
@@ -47,6 +55,25 @@ let handle op args = match op, args with
   | "invaff", [o; shape] -> "ok " ^ str_mat (inv_ornt_aff (parse_ornt o) (zlist_of_string shape))
   | "otrans", [a; b] -> res str_ornt (ornt_transform (parse_ornt a) (parse_ornt b))
   | "ocomp", [a; b] -> "ok " ^ str_ornt (ornt_compose (parse_ornt a) (parse_ornt b))
+  | "applyo", [shape; o] ->
+    res (fun (sh, srcs) -> "shape=" ^ string_of_zlist sh ^ " srcs=" ^ string_of_zlist srcs)
+      (run_apply (zlist_of_string shape) (parse_ornt o))
+  | "flipax", [shape; ax] -> "ok " ^ string_of_zlist (run_flip_axis (zlist_of_string shape) (z_of_string ax))
+  | "f43", [shape; aff] ->
+    res (fun l -> String.concat " ; " (List.map (fun ((sh, a), srcs) ->
+        "shape=" ^ string_of_zlist sh ^ " aff=" ^ str_mat a ^ " srcs=" ^ string_of_zlist srcs) l))
+      (run_four_to_three (zlist_of_string shape) (parse_mat aff))
+  | "squeeze", [shape; aff] ->
+    (let ((sh, a), srcs) = run_squeeze (zlist_of_string shape) (parse_mat aff) in
+     "ok shape=" ^ string_of_zlist sh ^ " aff=" ^ str_mat a ^ " srcs=" ^ string_of_zlist srcs)
+  | "concat43", [shape; aff] ->
+    res (fun ((sh, a), srcs) -> "shape=" ^ string_of_zlist sh ^ " aff=" ^ str_mat a ^ " srcs=" ^ string_of_zlist srcs)
+      (run_concat43 (zlist_of_string shape) (parse_mat aff))
+  | "ediag", [shape; o; aff] ->
+    res (fun (sh, a) -> "shape=" ^ string_of_zlist sh ^ " aff=" ^ str_mat a)
+      (run_enforce_diag (zlist_of_string shape) (parse_ornt o) (parse_mat aff))
+  | "o2cl", [lb; o] -> res str_opts (ornt2axcodes (parse_ornt lb) (parse_orows o))
+  | "c2ol", [lb; c] -> res str_orows (axcodes2ornt (parse_ornt lb) (parse_opts c))
   | "o2c", [o] -> res str_opts (ornt2axcodes ras_labels (parse_orows o))
   | "c2o", [c] -> res str_orows (axcodes2ornt ras_labels (parse_opts c))
   | "ioloop", [atol; r; p] ->
